@@ -67,7 +67,58 @@ Fixpoint search (fuel : nat) (rem : list op) (m : kv) : bool :=
       else existsb (fun o => minimal o rem && response_ok o (apply_op o m) && search f (remove_op o rem) (apply_op o m)) rem
   end.
 
-Definition linearizable (h : list hevent) : bool := let ops := ops_of h in search (S (List.length ops)) ops [].
+(* The same search with a memo of configurations (remaining operations, store) already shown to fail; this is the checker.
+   (Plain `search` is exponential in the number of overlapping operations when it has to fail; it is kept as the reference.) *)
+Definition lcfg := (list op * kv)%type.
+Definition resp_opt_eqb (a b : option (nat * (ctype * nat * nat * bool))) : bool :=
+  match a, b with
+  | Some (p, r), Some (q, r') => (p =? q) && resp_eqb r r'
+  | None, None => true
+  | _, _ => false
+  end.
+Definition op_full_eqb (a b : op) : bool :=
+  (o_client a =? o_client b) && (o_idx a =? o_idx b) && request_eqb (o_req a) (o_req b) && (o_inv a =? o_inv b)
+  && resp_opt_eqb (o_resp a) (o_resp b).
+Fixpoint list_eqb {A} (eqb : A -> A -> bool) (l1 l2 : list A) : bool :=
+  match l1, l2 with
+  | [], [] => true
+  | x :: r1, y :: r2 => eqb x y && list_eqb eqb r1 r2
+  | _, _ => false
+  end.
+Definition kv_eqb (a b : kv) : bool := list_eqb (fun x y => (fst x =? fst y) && (snd x =? snd y)) a b.
+Definition lcfg_eqb (a b : lcfg) : bool := list_eqb op_full_eqb (fst a) (fst b) && kv_eqb (snd a) (snd b).
+
+(* try the candidates one after the other, threading the memo *)
+Fixpoint try_all (rec : list op -> kv -> list lcfg -> bool * list lcfg) (rem : list op) (m : kv)
+         (cands : list op) (failed : list lcfg) : bool * list lcfg :=
+  match cands with
+  | [] => (false, (rem, m) :: failed)
+  | o :: cs =>
+      if minimal o rem && response_ok o (apply_op o m) then
+        let (r, failed') := rec (remove_op o rem) (apply_op o m) failed in
+        if r then (true, failed') else try_all rec rem m cs failed'
+      else try_all rec rem m cs failed
+  end.
+
+Fixpoint dfs (fuel : nat) (rem : list op) (m : kv) (failed : list lcfg) : bool * list lcfg :=
+  match fuel with
+  | 0 => (false, failed)
+  | S f =>
+      if forallb (fun o => negb (completed o)) rem then (true, failed)
+      else if existsb (lcfg_eqb (rem, m)) failed then (false, failed)
+      else try_all (dfs f) rem m rem failed
+  end.
+
+Definition linearizable (h : list hevent) : bool := let ops := ops_of h in fst (dfs (S (List.length ops)) ops [] []).
 
 (* history of a state of the Raft model (hist is kept newest first) *)
 Definition history (s : state) : list hevent := rev (hist s).
+
+(* ---------- correspondence helper: run a checked schedule (C08.Model.check_case), compare the history with the one the
+   implementation's clients saw, and run the checker on it. Result code: 4*tie_ok + 2*history_equal + linearizable *)
+Definition hist_digest (h : list hevent) : list N := flat_map d_hevent h.
+Definition c09_case (cfg : config) (steps : list (event * nat * N * option (list N))) (obs : list hevent) : nat :=
+  let tie := match check_case cfg steps with None => 4 | Some _ => 0 end in
+  let s := run cfg (init cfg) (map (fun x => fst (fst (fst x))) steps) in
+  let heq := if list_eq_dec N.eq_dec (hist_digest (history s)) (hist_digest obs) then 2 else 0 in
+  tie + heq + (if linearizable obs then 1 else 0).
